@@ -212,6 +212,52 @@ func (m *multi) DeserializeCellBlocks(msg proto.Message, b []byte) (uint32, erro
 	return nread, nil
 }
 
+// checkResponse makes sure that the response can be dispatched by
+// returnResults: it only refers to regions and actions that were part of
+// the request and every action gets exactly one result or exception.
+func (m *multi) checkResponse(msg proto.Message) error {
+	mr, ok := msg.(*pb.MultiResponse)
+	if !ok {
+		return fmt.Errorf("unexpected response type for Multi: %T", msg)
+	}
+	answered := make([]bool, len(m.calls))
+	for ri, rar := range mr.GetRegionActionResult() {
+		if rar.GetException() != nil {
+			if ri >= len(m.regions) {
+				return fmt.Errorf("got exception for region %d, but only %d region(s) "+
+					"were in multi request", ri, len(m.regions))
+			}
+			for i, c := range m.calls {
+				if c == nil || c.Region() != m.regions[ri] {
+					continue
+				}
+				if answered[i] {
+					return fmt.Errorf("more than one result for action %d in multi response", i+1)
+				}
+				answered[i] = true
+			}
+			continue
+		}
+		for _, roe := range rar.GetResultOrException() {
+			i := roe.GetIndex()
+			if i == 0 {
+				return errors.New("no index for result in multi response")
+			} else if int64(i) > int64(len(m.calls)) || m.calls[i-1] == nil {
+				return fmt.Errorf("index %d in multi response doesn't match any action", i)
+			} else if answered[i-1] {
+				return fmt.Errorf("more than one result for action %d in multi response", i)
+			}
+			answered[i-1] = true
+		}
+	}
+	for i, c := range m.calls {
+		if c != nil && !answered[i] {
+			return fmt.Errorf("no result for action %d in multi response", i+1)
+		}
+	}
+	return nil
+}
+
 func (m *multi) returnResults(msg proto.Message, err error) {
 	defer freeMulti(m)
 
